@@ -307,6 +307,7 @@ impl Sys {
             // earlier checkpoints are undamaged
             let would_drop: Option<usize> = if s.retained.len() + 1 > self.max_checkpoints { s.retained.first().copied() } else { None };
             let earlier: Vec<usize> = s.orphans.iter().chain(s.retained.iter()).copied().collect();
+            let mut retention_victim_gone = false;
             for &j in &earlier {
                 let cp = &s.cps[j];
                 if cp.id == interrupted_id {
@@ -326,6 +327,7 @@ impl Sys {
                             hooks::set_clock_ms(None);
                             return Err(Mismatch::new("crash_damaged_earlier_checkpoint", format!("crash at {:?} while writing {}: restore({}) fails: {:?}", plan, interrupted_id, cp.id, e)));
                         }
+                        retention_victim_gone = true;
                     }
                 }
             }
@@ -341,6 +343,12 @@ impl Sys {
                     interrupted_complete = true;
                 }
             }
+            // retention may drop the oldest checkpoint only as a consequence of the new one: if the interrupted
+            // checkpoint cannot be restored, nothing that could be restored before the call may be missing
+            if retention_victim_gone && !interrupted_complete && !s.cps.iter().any(|c| c.id == interrupted_id) {
+                hooks::set_clock_ms(None);
+                return Err(Mismatch::new("crash_damaged_earlier_checkpoint", format!("crash at {:?} while writing {}: the oldest checkpoint {} was already removed by retention although {} is not restorable — one restorable checkpoint fewer than before the call", plan, interrupted_id, would_drop.map(|j| s.cps[j].id.clone()).unwrap_or_default(), interrupted_id)));
+            }
             // "... whatever is checkpointed afterwards": the recovered process takes a checkpoint of a different
             // state within the same millisecond; every earlier checkpoint must still restore to its own state
             let _ = fresh.put(keys[0], Value::Integer(77));
@@ -351,7 +359,9 @@ impl Sys {
                 }
             }
             if let Ok(id2) = fresh.checkpoint("after-crash") {
-                if earlier.iter().any(|&j| s.cps[j].id == id2) || (interrupted_complete && id2 == interrupted_id) {
+                // (the id of a checkpoint that retention had already deleted when the process died is unknown to the
+                //  recovered process and may be handed out again, as after any restart)
+                if earlier.iter().any(|&j| s.cps[j].id == id2 && !(retention_victim_gone && Some(j) == would_drop)) || (interrupted_complete && id2 == interrupted_id) {
                     hooks::set_clock_ms(None);
                     return Err(Mismatch::new("checkpoint_ids_collide", format!("crash at {:?} while writing {}; the checkpoint taken after recovery got id {} which an earlier checkpoint already carries", plan, interrupted_id, id2)));
                 }
